@@ -8,6 +8,7 @@ import Compress.Proofs.FlatePrefix
 import Compress.Proofs.BzImplCounters
 import Compress.Proofs.FlateApi
 import Compress.Proofs.BzReaderApi
+import Compress.Proofs.FlateApiRefine
 
 namespace Compress.Props.C11
 open Compress Compress.Prefix Compress.Proofs.PrefixTables Compress.Proofs.BitIOExact
@@ -115,5 +116,18 @@ theorem C11_bzip2_output_offset (r : Reader) (ops : List Op) (hn : ∀ op ∈ op
     (Reader.run r ops).1.outputOffset = r.outputOffset + Compress.Proofs.BzReaderApi.delivered (Reader.run r ops).2 ∧
     (r.reset src).outputOffset = 0 ∧ (r.reset src).inputOffset = 0 :=
   ⟨Compress.Proofs.BzReaderApi.run_outputOffset r ops hn, rfl, rfl⟩
+
+open Compress.Flate.Api Compress.Proofs.FlateRefine in
+/-- **flate.Reader at the API: at `io.EOF` InputOffset is the stream length** (final padding
+    included, trailing bytes not), for every source, every Read schedule, from any earlier state
+    Reset onto the source. -/
+theorem C11_flate_api_input_offset (r0 : Reader) (src : Src) (sched : List Nat)
+    (hs : ∀ n, sched.getLast? = some n → 0 < n) (n : Nat)
+    (hv : (Flate.decodeBits src.bits).verdict = .ok n) :
+    ∃ r' got, Reader.drive (runFuel src.bits sched) (r0.reset src) sched #[] = (got, some .eof, r') ∧
+      r'.inputOffset = (n + 7) / 8 := by
+  obtain ⟨r', h1, _, _, _, h5⟩ := Compress.Proofs.FlateApi.reset_drive_spec r0 src sched hs
+  rw [hv] at h1
+  exact ⟨r', _, h1, h5 n hv⟩
 
 end Compress.Props.C11
